@@ -168,7 +168,7 @@ def mutate(owner, name, old, new, count=1):
         tree.body[0].decorator_list = []
         selfname = tree.body[0].args.args[0].arg if tree.body[0].args.args else None
         if rewrite:
-            tree = xform.Xform(qual, clsname, selfname).visit(tree)
+            tree = xform.Xform(qual, clsname, selfname, xform.local_names_of(tree.body[0], selfname if clsname else None)).visit(tree)
         else:
             tree = _SuperOnly(clsname, selfname).visit(tree)
         ast.fix_missing_locations(tree)
